@@ -174,6 +174,15 @@ def build_formulas(cfg: dict, cliff: bool = True, name_map: dict | None = None,
         lab = cfg['labels']
         utils = {}
         for alt in range(cfg['J']):
+            if cfg.get('linutil'):
+                # the utilities written with the dedicated linear-utility operator (free and fixed coefficients alike)
+                from biogeme.expressions import bioLinearUtility, LinearTermTuple
+                lin = [LinearTermTuple(beta=blist[i], x=v(colname(cfg, cfg['assign'][i][1])))
+                       for i in order if cfg['assign'][i][0] == alt]
+                if alt == 0:
+                    lin += [LinearTermTuple(beta=fb, x=v('one')) for fb in fixed]
+                utils[lab + alt] = bioLinearUtility(lin) if lin else Numeric(0)
+                continue
             terms = [blist[i] * v(colname(cfg, cfg['assign'][i][1]))
                      for i in order if cfg['assign'][i][0] == alt]
             if alt == 0:
